@@ -53,6 +53,7 @@ func c02(c *Ctx) {
 	c02PanicProbe(c)
 	c02SaveFaultProbe(c)
 	c02ConcurrentProbe(c)
+	c02DuplicateNodeIDProbe(c)
 	c02Campaign(c)
 }
 
@@ -131,6 +132,9 @@ func c02HashFields(c *Ctx) {
 	sorted := append([]string(nil), fields...)
 	sort.Strings(sorted)
 	c.Op("hashfields-all", strings.Join(sorted, ","))
+	// constants the model hard-codes / takes from the generated files
+	c.Op("const MaxExtraDataLen", fmt.Sprint(params.MaxExtraDataLen))
+	c.Op("const MaxTxLifeTime", fmt.Sprint(params.MaxTxLifeTime))
 }
 
 // ---------------------------------------------------------------------------------------------
@@ -357,6 +361,12 @@ func (s *c02State) facts(b *types.Block, now int64, ex c02Exec) string {
 				}
 				return "1"
 			})
+			if ok == "panic" {
+				ok = "p" // the model's Tx.bodyPanics
+			} else if wf := c02TxWellFormed(tx) == "" && c02SubsNearBox(tx); wf != (ok == "1") {
+				// the fed flag is cross-checked against the harness' own reading of the well-formedness rules
+				s.c.Fail("c02/fed-fact/bodyOk", fmt.Sprintf("VerifyTxBody says %s but the independent well-formedness check says %v (%s) for tx %s", ok, wf, c02TxWellFormed(tx), tx.Hash().Hex()), nil)
+			}
 			th := tx.Hash()
 			ids := fmt.Sprint(s.id("h", th[:]))
 			if tx.Type() == params.BoxTx {
@@ -379,6 +389,9 @@ func (s *c02State) facts(b *types.Block, now int64, ex c02Exec) string {
 			}
 			return "0"
 		})
+	}
+	if anc == "panic" {
+		anc = "p" // the model's onAncestor = none
 	}
 	add("anc", anc)
 	switch ex.kind {
@@ -539,7 +552,7 @@ func (s *c02State) spec(b *types.Block, now int64, ex c02Exec) string {
 				}
 			}
 		}
-		if err := tx.VerifyTxBody(nodeChainID, uint64(h.Time), true); err != nil {
+		if why := c02TxWellFormed(tx); why != "" { // own reading of the rules, NOT VerifyTxBody
 			return "tx-malformed"
 		}
 		if seen[tx.Hash()] {
@@ -677,6 +690,8 @@ func (s *c02State) runCase(m *types.Block, label string, honest bool, probe type
 			return "ok"
 		case consensus.ErrIgnoreBlock:
 			return "ignored"
+		case consensus.ErrSaveBlock, consensus.ErrSaveAccount:
+			return "save-error" // saveNewBlock failed AFTER verification: never expected without an injected fault
 		}
 		return "reject"
 	})
@@ -703,6 +718,8 @@ func (s *c02State) runCase(m *types.Block, label string, honest bool, probe type
 		if d := c02FpDiff(before, after); len(d) > 0 {
 			c.Fail("c02/reject-side-effect/"+d[0], fmt.Sprintf("panicking InsertBlock changed %v [%s]", d, label), replay)
 		}
+	case "save-error":
+		c.Fail("c02/save-error-without-fault", fmt.Sprintf("saveNewBlock failed (%s) although no storage fault was injected [%s]", msg, label), replay)
 	case "reject", "ignored":
 		if d := c02FpDiff(before, after); len(d) > 0 {
 			c.Fail("c02/reject-side-effect/"+d[0], fmt.Sprintf("%s block changed %v: before=%v after=%v [%s]", verdict, d, before[d[0]], after[d[0]], label), replay)
@@ -751,18 +768,23 @@ func (s *c02State) checkStored(m *types.Block, label string, replay interface{})
 	} else if len(st.DeputyNodes) != 0 {
 		c.Fail("c02/stored-body-mismatch/deputy-nodes", "deputy nodes stored in a non-snapshot block ["+label+"]", replay)
 	}
+	// one confirm per SIGNER (a node can produce many byte strings for one hash: (r, N-s, v^1), other nonces),
+	// and none by the miner
 	seen := map[string]bool{}
 	hash := st.Hash()
+	if minerID, err := st.SignerNodeID(); err == nil {
+		seen[string(minerID)] = true
+	}
 	for _, cf := range st.Confirms {
 		id, err := cf.RecoverNodeID(hash)
 		if err != nil || n.DM.GetDeputyByNodeID(st.Height(), id) == nil {
 			c.Fail("c02/stored-body-mismatch/confirms", "a stored confirm is not a deputy's signature of the block ["+label+"]", replay)
 			continue
 		}
-		if seen[string(cf[:])] || bytes.Equal(cf[:], st.Header.SignData) {
-			c.Fail("c02/stored-body-mismatch/confirms", "duplicate confirm stored ["+label+"]", replay)
+		if seen[string(id)] {
+			c.Fail("c02/stored-body-mismatch/confirms", "two stored signatures (miner or confirms) recover to the same deputy ["+label+"]", replay)
 		}
-		seen[string(cf[:])] = true
+		seen[string(id)] = true
 	}
 }
 
@@ -770,10 +792,13 @@ func (s *c02State) checkStored(m *types.Block, label string, replay interface{})
 // (C) panic probe
 // ---------------------------------------------------------------------------------------------
 
-func c02NewState(c *Ctx, nDep int) *c02State {
+func c02NewState(c *Ctx, nDep int) *c02State { return c02NewStateN(c, nDep, nDep) }
+
+// c02NewStateN: nDep genesis deputies, at most maxDep deputies per term (room for registered candidates).
+func c02NewStateN(c *Ctx, nDep, maxDep int) *c02State {
 	now := uint32(time.Now().Unix())
 	w := NewWorld(nDep, now-500000, 10000)
-	s := &c02State{c: c, w: w, n: w.NewNode(nDep), ids: map[string]int{}, outsider: detKey("c02-outsider"),
+	s := &c02State{c: c, w: w, n: w.NewNode(maxDep), ids: map[string]int{}, outsider: detKey("c02-outsider"),
 		honestGL: map[common.Hash]uint64{}, honestDR: map[common.Hash]string{}}
 	for i := 0; i < 3; i++ {
 		s.users = append(s.users, detKey(fmt.Sprintf("c02-user-%d", i)))
@@ -1179,6 +1204,20 @@ func c02Muts() []c02Mut {
 			m.Confirms = append(m.Confirms, types.BytesToSignData(m.Header.SignData))
 			return true
 		}},
+		{"Confirms:malleated-miner-signature", func(s *c02State, m, _ *types.Block) bool {
+			if len(m.Header.SignData) != 65 {
+				return false
+			}
+			m.Confirms = append(m.Confirms, types.BytesToSignData(malleate(m.Header.SignData)))
+			return true
+		}},
+		{"Confirms:malleated-copy", func(s *c02State, m, _ *types.Block) bool {
+			if len(m.Confirms) == 0 {
+				return false
+			}
+			m.Confirms = append(m.Confirms, types.BytesToSignData(malleate(m.Confirms[0][:])))
+			return true
+		}},
 		{"Confirms:duplicate", func(s *c02State, m, _ *types.Block) bool {
 			if len(m.Confirms) == 0 {
 				return false
@@ -1278,9 +1317,13 @@ func c02Campaign(c *Ctx) {
 	params.TermDuration, params.InterimDuration = 12, 4
 	defer func() { params.TermDuration, params.InterimDuration = oldT, oldI }()
 	nDep := 3
-	s := c02NewState(c, nDep)
+	s := c02NewStateN(c, nDep, 5)
 	defer func() { Safe(func() string { s.n.Close(); return "" }) }()
 	n, w := s.n, s.w
+	// two more candidates (account key = node key) register during term 0 and one of them resigns during term 1,
+	// so the deputy lists of terms 0, 1, 2 differ in size, members and ranks: a lookup in the wrong term is visible
+	cands := []*ecdsa.PrivateKey{detKey("c02-cand-0"), detKey("c02-cand-1")}
+	w.DeputyKeys = append(w.DeputyKeys, cands...)
 	c.Op(fmt.Sprintf("params %d %d %d", params.TermDuration, params.InterimDuration, w.Timeout), "ok")
 	muts := c02Muts()
 	observer := detKey("c02-observer")
@@ -1312,9 +1355,14 @@ func c02Campaign(c *Ctx) {
 				c.Count("round:fork")
 			}
 		}
-		d := 1 + c.Rnd.Intn(nDep)
+		curDep := n.DM.GetDeputiesCount(parent.Height() + 1)
+		if curDep == 0 {
+			curDep = nDep
+		}
+		c.Count(fmt.Sprintf("round:deputies=%d", curDep))
+		d := 1 + c.Rnd.Intn(curDep)
 		if c.Rnd.Intn(5) == 0 {
-			d += nDep * c.Rnd.Intn(3)
+			d += curDep * c.Rnd.Intn(3)
 		}
 		t := parent.Time() + slot*uint32(d-1) + uint32(c.Rnd.Intn(int(slot)))
 		// transactions: founder funds users; users pay each other
@@ -1337,6 +1385,12 @@ func c02Campaign(c *Ctx) {
 			}
 			exp := uint64(t) + uint64([]int{0, 1, 60, 600, 1799, 1800}[c.Rnd.Intn(6)])
 			txs = append(txs, txTransfer(from, to, amt, TxOpt{Exp: exp, Msg: fmt.Sprintf("c02-%d", s.txSeq)}))
+		}
+		// candidate life cycle, decided from the STATE at the parent (idempotent over forks and rebases)
+		if !snapshotNext {
+			if tx := s.candidateStep(parent, cands, t); tx != nil {
+				txs = append(txs, tx)
+			}
 		}
 		if n.DM.GetDeputiesCount(parent.Height()+1) == 0 {
 			// the snapshot block of the coming term is not stable at this node yet (a run of blocks without enough
@@ -1367,7 +1421,7 @@ func c02Campaign(c *Ctx) {
 		}
 		// the node is an observer most of the time, sometimes one of the deputies (it then confirms)
 		if c.Rnd.Intn(4) == 0 {
-			deputynode.SetSelfNodeKey(w.DeputyKeys[c.Rnd.Intn(nDep)])
+			deputynode.SetSelfNodeKey(w.DeputyKeys[c.Rnd.Intn(len(w.DeputyKeys))])
 		} else {
 			deputynode.SetSelfNodeKey(observer)
 		}
@@ -1474,6 +1528,10 @@ func c02Campaign(c *Ctx) {
 					c.Count("miner-dropped-window:" + wc.name)
 				}
 			}
+		}
+		// miner-built blocks around ONE transaction that breaks exactly one non-expiry rule of VerifyTxBody
+		if c.Rnd.Intn(4) == 0 {
+			cases += s.malformedFamily(parent, t, txs, probe)
 		}
 		// mutants of this block
 		k := 5 + c.Rnd.Intn(4)
